@@ -6,17 +6,22 @@ use serde::Deserialize;
 use crate::{analysis::Violation, scenario::Scenario, world::RunOutput};
 
 #[derive(Clone, Debug, Deserialize)]
-pub struct Finding {
-    pub id: String,
+pub struct Match {
     pub property: String,
-    /// "known" or "fixed"
-    pub status: String,
     /// Oracle tag the finding shows up under.
-    #[serde(default)]
     pub tag: String,
     /// Name of the signature predicate (see `signature_matches`).
-    #[serde(default)]
     pub signature: String,
+}
+
+#[derive(Clone, Debug, Deserialize)]
+pub struct Finding {
+    pub id: String,
+    /// "known" or "fixed"
+    pub status: String,
+    /// Where the finding shows up: (property, oracle tag, signature predicate).
+    #[serde(default)]
+    pub matches: Vec<Match>,
     pub summary: String,
     #[serde(default)]
     pub commit: Option<String>,
@@ -41,7 +46,7 @@ pub fn load(verif_dir: &std::path::Path) -> KnownFile {
 
 pub fn matches<'a>(k: &'a KnownFile, property: &str, tag: &str, sc: &Scenario, out: &RunOutput, v: &Violation) -> Option<&'a Finding> {
     k.findings.iter().find(|f| {
-        f.status == "known" && f.property == property && f.tag == tag && signature_matches(&f.signature, sc, out, v)
+        f.status == "known" && f.matches.iter().any(|m| m.property == property && m.tag == tag && signature_matches(&m.signature, sc, out, v))
     })
 }
 
@@ -55,32 +60,82 @@ pub fn signature_matches(sig: &str, sc: &Scenario, out: &RunOutput, v: &Violatio
         // receiver then takes the following (re-cut) segment as new data.
         "delivered-probe-resegmented" => delivered_probe_resegmented(sc, out, v, false),
         "delivered-probe-resegmented-exact-offset" => delivered_probe_resegmented(sc, out, v, true),
+        // F1 seen at EOF: the reader has MORE bytes than precede the FIN (duplicated range).
+        // F1 seen at EOF: the reader's byte count differs from what precedes the FIN, and the
+        // writer of that very stream re-cut a sequence number the reader had already consumed
+        // in another length (the reader gets a range twice, or misses one).
+        "delivered-probe-resegmented-eof" => {
+            v.offset.zip(v.aux).is_some_and(|(read, expected)| read != expected)
+                && v.wnode.is_some_and(|w| resegmented_after_delivery(out).iter().any(|(t, src, _)| *t <= v.t && *src == sc.addr(w)))
+        }
+        // F7 (same root cause as F1): a popped MTU probe is re-cut into MORE segments after the
+        // connection already assigned its FIN the next sequence number (fin-wait-1): a data
+        // segment takes the FIN's number, the FIN is never sent, the closer gives up 1 s later
+        // and the peer's outstanding data is never acknowledged.
+        "resegmented-past-fin" => !resegmented_past_fin_nodes(sc, out).is_empty(),
+        // F6: an endpoint has accepted-but-unsent data, the peer's last advertised window is
+        // zero, nothing is in flight and NO timer is armed: it waits for a window update that
+        // was lost (or whose sender is gone) forever. The violation must concern that node
+        // (v.node) or, for stream-level tags, any node.
+        "zero-window-wait-without-timer" => zero_window_stuck_nodes(sc, out).iter().any(|n| v.node.is_none_or(|a| a == *n)),
         _ => false,
     }
 }
 
-/// Finds ST_DATA packets that were delivered to a real endpoint and whose sequence number
-/// was later (re-)emitted by the same sender with a different payload length. Returns
-/// (t_of_later_emission, payload of the delivered packet).
-pub fn resegmented_after_delivery(out: &RunOutput) -> Vec<(u64, std::net::SocketAddr, std::sync::Arc<crate::codec::Pkt>)> {
-    use std::collections::HashMap;
-    let mut delivered: HashMap<(std::net::SocketAddr, u16, u16), std::sync::Arc<crate::codec::Pkt>> = HashMap::new();
-    let mut res = vec![];
-    for (t, ev) in &out.hist.evs {
+/// Nodes whose connection spent at least 30 s of virtual time with buffered un-sent data,
+/// nothing in flight, a zero peer window and no retransmission timer armed (end-of-poll
+/// snapshots; the task wrapper's 5 s tick guarantees a snapshot every 5 s).
+pub fn zero_window_stuck_nodes(sc: &Scenario, out: &RunOutput) -> Vec<usize> {
+    use librqbit_utp::verif::ProbeEvent;
+    // Per connection: start of the current streak of "stuck" snapshots, longest streak seen.
+    let mut streak: std::collections::HashMap<(std::net::SocketAddr, u16), (Option<u64>, u64)> = Default::default();
+    for (t, p) in out.hist.probes() {
+        if let ProbeEvent::ConnPoll(s) = p {
+            let stuck = s.tx_ring_len > 0 && s.flight_size == 0 && s.last_remote_window == 0 && s.t_retransmit.is_none() && s.finished.is_none();
+            let e = streak.entry((s.key.local, s.key.conn_id_send)).or_insert((None, 0));
+            if stuck {
+                let start = *e.0.get_or_insert(t);
+                e.1 = e.1.max(t - start);
+            } else {
+                e.0 = None;
+            }
+        }
+    }
+    let mut nodes = vec![];
+    for ((local, _), (_, longest)) in streak {
+        // 30 s of virtual time without any timer-driven attempt: far beyond any RTO.
+        if longest >= 30 * crate::hist::SEC {
+            if let Some(n) = (0..sc.nodes.len()).find(|n| sc.addr(*n) == local) {
+                nodes.push(n);
+            }
+        }
+    }
+    nodes
+}
+
+/// Nodes that, while in fin-wait-1/last-ack (FIN number = seq_nr - 1 assigned), emitted an
+/// ST_DATA carrying the FIN's sequence number or a later one.
+pub fn resegmented_past_fin_nodes(sc: &Scenario, out: &RunOutput) -> Vec<usize> {
+    use librqbit_utp::verif::ProbeEvent;
+    let mut fin_nr: std::collections::HashMap<(std::net::SocketAddr, u16), u16> = Default::default();
+    let mut nodes = vec![];
+    for (_, ev) in &out.hist.evs {
         match ev {
-            crate::hist::Ev::Deliver(d) => {
-                if let Some(p) = &d.pkt {
-                    if p.typ == crate::codec::ST_DATA {
-                        delivered.entry((d.src, p.conn_id, p.seq)).or_insert_with(|| p.clone());
-                    }
+            crate::hist::Ev::Probe(ProbeEvent::ConnPoll(s)) => {
+                if s.state == "fin-wait-1" || s.state == "last-ack" {
+                    fin_nr.entry((s.key.local, s.key.conn_id_send)).or_insert(s.seq_nr.wrapping_sub(1));
                 }
             }
             crate::hist::Ev::Emit(e) if e.real => {
                 if let Some(p) = &e.pkt {
                     if p.typ == crate::codec::ST_DATA {
-                        if let Some(dp) = delivered.get(&(e.src, p.conn_id, p.seq)) {
-                            if dp.payload.len() != p.payload.len() {
-                                res.push((*t, e.src, dp.clone()));
+                        if let Some(f) = fin_nr.get(&(e.src, p.conn_id)) {
+                            if crate::util::seq_diff(p.seq, *f) >= 0 {
+                                if let Some(n) = (0..sc.nodes.len()).find(|n| sc.addr(*n) == e.src) {
+                                    if !nodes.contains(&n) {
+                                        nodes.push(n);
+                                    }
+                                }
                             }
                         }
                     }
@@ -89,6 +144,53 @@ pub fn resegmented_after_delivery(out: &RunOutput) -> Vec<(u64, std::net::Socket
             _ => {}
         }
     }
+    nodes
+}
+
+/// Finds ST_DATA sequence numbers of which the receiver first got one version while the
+/// sender (also) emitted the same sequence number with a different payload length (a popped
+/// MTU probe that was delivered or merely delayed). Returns (instant from which both facts
+/// hold, sender, the first-delivered version).
+pub fn resegmented_after_delivery(out: &RunOutput) -> Vec<(u64, std::net::SocketAddr, std::sync::Arc<crate::codec::Pkt>)> {
+    use std::collections::HashMap;
+    type Key = (std::net::SocketAddr, u16, u16);
+    let mut first_delivered: HashMap<Key, (u64, std::sync::Arc<crate::codec::Pkt>)> = HashMap::new();
+    let mut emitted: HashMap<Key, Vec<(u64, usize)>> = HashMap::new();
+    for (t, ev) in &out.hist.evs {
+        match ev {
+            crate::hist::Ev::Deliver(d) if !d.corrupted || d.pkt.is_some() => {
+                if let Some(p) = &d.pkt {
+                    if p.typ == crate::codec::ST_DATA {
+                        first_delivered.entry((d.src, p.conn_id, p.seq)).or_insert_with(|| (*t, p.clone()));
+                    }
+                }
+            }
+            crate::hist::Ev::Emit(e) if e.real => {
+                if let Some(p) = &e.pkt {
+                    if p.typ == crate::codec::ST_DATA {
+                        emitted.entry((e.src, p.conn_id, p.seq)).or_default().push((*t, p.payload.len()));
+                    }
+                }
+            }
+            // A re-cut version that the transport refused (back-pressure / error) still shows
+            // that the sender re-segmented that sequence number.
+            crate::hist::Ev::SendFail { src, pkt: Some(p), .. } => {
+                if p.typ == crate::codec::ST_DATA {
+                    emitted.entry((*src, p.conn_id, p.seq)).or_default().push((*t, p.payload.len()));
+                }
+            }
+            _ => {}
+        }
+    }
+    let mut res = vec![];
+    for (k, (td, dp)) in &first_delivered {
+        if let Some(ems) = emitted.get(k) {
+            if let Some((te, _)) = ems.iter().find(|(_, l)| *l != dp.payload.len()) {
+                res.push(((*td).max(*te), k.0, dp.clone()));
+            }
+        }
+    }
+    res.sort_by_key(|r| r.0);
     res
 }
 
